@@ -8,7 +8,6 @@ import (
 	"flag"
 	"fmt"
 	"os"
-	"path/filepath"
 	"runtime/debug"
 	"sort"
 	"strconv"
@@ -129,7 +128,7 @@ func (c *Ctx) loadKnown(path string) {
 
 func (c *Ctx) matchKnown(key string) (string, bool) {
 	for _, k := range c.known {
-		if ok, _ := filepath.Match(k.key, key); ok || k.key == key {
+		if k.key == key || Glob(k.key, key) {
 			return k.key + " " + k.text, true
 		}
 	}
@@ -295,13 +294,17 @@ func (c *Ctx) Finish() {
 		}
 	}
 	unknown := 0
-	keys := make([]string, 0, len(c.knownHit))
-	for k := range c.knownHit {
+	agg := map[string]int{}
+	for k, txt := range c.knownHit {
+		agg[txt] += c.violKeys[k]
+	}
+	keys := make([]string, 0, len(agg))
+	for k := range agg {
 		keys = append(keys, k)
 	}
 	sort.Strings(keys)
 	for _, k := range keys {
-		fmt.Printf("KNOWN-FINDING: property=%s key=%s (%d cases) %s\n", c.Prop, k, c.violKeys[k], c.knownHit[k])
+		fmt.Printf("KNOWN-FINDING: property=%s (%d cases) key=%s\n", c.Prop, agg[k], k)
 	}
 	for _, v := range c.viol {
 		if !v.Known {
@@ -334,4 +337,24 @@ func Selected(name string) bool {
 		}
 	}
 	return false
+}
+
+// Glob matches s against pattern where '*' matches any (possibly empty) run of characters, '/' included.
+func Glob(pattern, s string) bool {
+	parts := strings.Split(pattern, "*")
+	if len(parts) == 1 {
+		return pattern == s
+	}
+	if !strings.HasPrefix(s, parts[0]) {
+		return false
+	}
+	s = s[len(parts[0]):]
+	for i := 1; i < len(parts)-1; i++ {
+		j := strings.Index(s, parts[i])
+		if j < 0 {
+			return false
+		}
+		s = s[j+len(parts[i]):]
+	}
+	return strings.HasSuffix(s, parts[len(parts)-1])
 }
